@@ -50,7 +50,7 @@ func c13GenFile(r *Rng, idx int) (string, []c13Decl) {
 	markers := []string{"-- ", "--- ", "-- * ", "--", "--  "}
 	places := []string{"trailing", "block1", "block2", "block3", "both", "none", "detached"}
 	kinds := []string{"local-number", "local-string", "local-table", "global", "global-function", "local-function", "member-dot", "member-colon",
-		"local-alias", "global-alias", "member-alias"}
+		"local-alias", "global-alias", "member-alias", "inner-local-number"}
 	n := r.Range(4, 9)
 	libUsed := map[string]bool{}
 	lines = append(lines, fmt.Sprintf("local host%d = {}", idx))
@@ -90,6 +90,10 @@ func c13GenFile(r *Rng, idx int) (string, []c13Decl) {
 		} else {
 			d.Adjacent = true // directly below the previous declaration (and below its trailing comment, if it has one)
 		}
+		if d.Kind == "inner-local-number" {
+			// a local of a function body that is used on the body's last line, the line of the closing `end`
+			lines = append(lines, fmt.Sprintf("local function wrap%d_%d(q)", idx, i))
+		}
 		redeclared := false
 		if (d.Kind == "local-number" || d.Kind == "local-string") && r.Fork(uint64(0x7477696e+i)).Chance(1, 3) {
 			// an older declaration of the same name in the same block, with a value and a comment of its own, and a use
@@ -113,6 +117,10 @@ func c13GenFile(r *Rng, idx int) (string, []c13Decl) {
 			d.Literal = fmt.Sprintf("\"v%d %s\"", r.Intn(100), r.Pick([]string{"abc", "é", "中", "x y"}))
 			d.Local = true
 			stmt = fmt.Sprintf("local %s = %s", d.Name, d.Literal)
+		case "inner-local-number":
+			d.Literal = fmt.Sprint(r.Intn(100000))
+			d.Local = true
+			stmt = fmt.Sprintf("  local %s = %s", d.Name, d.Literal)
 		case "local-table":
 			d.Local = true
 			stmt = fmt.Sprintf("local %s = { fieldA = 1, fieldB = \"b\" }", d.Name)
@@ -186,12 +194,21 @@ func c13GenFile(r *Rng, idx int) (string, []c13Decl) {
 			d.DocOpen = true
 			d.Anno = true
 		}
+		if d.Kind == "inner-local-number" {
+			ret := fmt.Sprintf("  return %s + q end", d.Name)
+			d.UseLines = append(d.UseLines, len(lines))
+			d.UseCols = append(d.UseCols, strings.Index(ret, d.Name)+1)
+			lines = append(lines, ret, fmt.Sprintf("print(wrap%d_%d(1))", idx, i))
+		}
 		decls = append(decls, d)
 	}
 	lines = append(lines, "")
 	// uses, one per line
 	for i := range decls {
 		d := &decls[i]
+		if d.Kind == "inner-local-number" {
+			continue // its use is inside the function
+		}
 		var use string
 		switch d.Kind {
 		case "member-alias":
